@@ -277,7 +277,18 @@ Proof.
   destruct i; discriminate.
 Qed.
 
-(** and the unguarded variant has a pair that is not ordered by the lock *)
+(** tightness: without a lock two conflicting accesses are simply unordered *)
+Definition racy_trace : trace := [(1, Acc 3 Wr); (2, Acc 3 Rd)].
+
+Lemma racy_unordered : forall i j, ~ hb racy_trace i j.
+Proof.
+  intros i j H. induction H as [i j t a b Hij Hi Hj | i j t u l m m' Hij Hi Hj Hm | i j k H1 IH1 H2 IH2].
+  - destruct i as [|[|i]]; cbn in Hi; try (destruct i; discriminate);
+      destruct j as [|[|j]]; cbn in Hj; try (destruct j; discriminate); try lia;
+      inversion Hi; inversion Hj; subst; discriminate.
+  - destruct i as [|[|i]]; cbn in Hi; try discriminate. destruct i; discriminate.
+  - exact IH1.
+Qed.
 
 (* ====================================================================== *)
 (** * B. Lock order and cyclic waits                                       *)
